@@ -95,10 +95,16 @@ def build_trx_lines(rng, kind):
     ej = G.eqpt_json()
     equipment = G.make_equipment(ej)
     if kind == 'p2p':
-        # (a one-directional line has no opposite OMS to pair: not generated); a quarter of the lines are single
+        # a quarter of the lines are single
         # spans without any amplifier: the spectrum map then has to come from the SI range
         bare = rng.random() < 0.25
-        tj = G.gen_p2p(rng, both=True, max_spans=1 if bare else 4, user_amps=not bare)
+        r = rng.random()
+        if r < 0.15:
+            # the shipped point-to-point example: one direction only, its far transceiver has no successor
+            tj = G.example_json('edfa_example_network.json')
+        else:
+            # (a quarter of the generated lines are one-directional as well)
+            tj = G.gen_p2p(rng, both=r > 0.4, max_spans=1 if bare else 4, user_amps=not bare)
     else:
         tj, _ = G.gen_topology(rng, max_sites=4, max_spans=2, max_km=110)
         a = rng.choice([e['uid'] for e in tj['elements'] if e['type'] == 'Roadm'])
@@ -272,6 +278,11 @@ def check_oms_list(ctx, network, equipment, oms_list, tag):
     # reverse pairing
     for o in oms_list:
         r = getattr(o, 'reversed_oms', None)
+        has_opposite = any(x.el_id_list[0] == o.el_id_list[-1] and x.el_id_list[-1] == o.el_id_list[0] for x in oms_list)
+        if r is None and not has_opposite:
+            # a one-directional line: there is nothing to pair
+            ctx.count('oms_without_opposite_direction')
+            continue
         if r is None:
             ctx.violation('reverse-missing', f'{tag}: OMS {o.oms_id} ({o.el_id_list[0]} -> {o.el_id_list[-1]}) has no '
                           'opposite direction although the topology is bidirectional')
